@@ -30,9 +30,10 @@ for f in $DEMOFILES; do mkdir -p $(dirname $f); mv /tmp/.seedhold-$NAME/$f "$f";
 rm -rf /tmp/.seedhold-$NAME
 echo "   build $build_rc suite $suite_rc"
 echo "== demo without change"
-git stash -q
+# (not git stash: the stash is shared by all worktrees of /repo)
+git apply -R "$OUT/patch.diff"
 ( eval "$DEMO" ) > "$OUT/.demo_without.log" 2>&1; without_rc=$?
-git stash pop -q
+git apply "$OUT/patch.diff"
 echo "   exit $without_rc"
 # apply to /repo, run every claimed check, revert
 cd /verif
